@@ -133,7 +133,7 @@ PROPS = {
              'weighted random walks over {Publish/Subscribe/Unsubscribe, Start, Stop(true|false) pending on a helper goroutine, dial refused / CONNECT unsendable / no CONNACK / CONNACK denied, '
              'hang-up, failing k-th write, SUBACK 0x80, no SUBACK during resubscribe, acks in/out of order and after a reconnect, inbound QoS 0/1/2 incl. a refusing callback, sleeps across every timeout}; '
              'queue capacity 1-100, clean and persistent sessions, ValidateSubs on/off; every observation (packets written, callbacks, errors, futures, queue length, store ids, subscription tree, each with its fake time) '
-             'must be the next enabled output of the Lean service model; a second, concurrent mode (several API goroutines, autonomous broker) is judged by the monitors only; distinct = distinct traces',
+             'must be the next enabled output of the Lean service model; a second, concurrent mode (several API goroutines, autonomous broker) is judged by the monitors only, and so are the overlap schedules (Start from a second goroutine while a Stop waits for the supervisor: acknowledgement outstanding / waiting for the CONNACK / inside Dial / backing off, then publish, connection loss, resume, late acknowledgement); distinct = distinct traces',
         assumptions=['one stimulus per quiescent point inside a testing/synctest bubble (go1.26); observations are compared per goroutine class (supervisor / processor / API caller / connection close), the order between classes is not',
                      'combinations whose outcome depends on Go\'s random select (a Stop pending while commands are queued and the connection comes up) are exercised in the concurrent mode, where only the monitors judge',
                      'the model variant is named by the harness flag -fixed (default 9,15,16,17 = all proposed repairs present in /repo)'],
